@@ -114,6 +114,15 @@ Proof.
   exact Hg'.
 Qed.
 
+(* the property's law clause at EVERY loop head of EVERY run: the node that changes next is u with
+   probability rate(u)/sum of rates, rates = the user's function on the CURRENT statuses *)
+Theorem C15x_step_law_at_every_loop_head :
+  forall t s l t' s', crun g rate choice infl rstats tmax full t s l t' s' -> cgood g rate rstats s ->
+  cinv g rate s' /\
+  forall u, In u (gnodes g) -> 0 < total_rate g rate (cstat s') ->
+    prob (fun o => N.eqb (fst o) u) (law (jump choice s')) == rate (cstat s') u / total_rate g rate (cstat s').
+Proof. exact (crun_law g rate choice infl rstats tmax full Hnd rate_nonneg infl_in covers). Qed.
+
 End C15x.
 
 (* non-vacuity: the threshold contagion on a triangle of Props/C15.v satisfies every hypothesis
@@ -134,4 +143,5 @@ Print Assumptions C15x_output_is_one_log.
 Print Assumptions C15x_log_times.
 Print Assumptions C15x_log_first_event.
 Print Assumptions C15x_every_loop_head_is_good.
+Print Assumptions C15x_step_law_at_every_loop_head.
 Print Assumptions C15x_example.
